@@ -25,4 +25,14 @@ theorem register_broadcasts : Zc.Gen.registerBroadcasts = 3 := by decide
 theorem not_started_of_done (e s : Bool) : started true e s = false := by simp [started]
 theorem wait_raises_of_done : wait_for_start_raises true = true := by simp [wait_for_start_raises]
 
+/-- `async_close` does not wait for start-up on a done instance -/
+theorem close_no_wait_of_done : close_waits_for_start true = false := by simp [close_waits_for_start]
+/-- after the wait, `async_wait_for_start` raises iff the event is no longer set or the instance is done -/
+theorem wait_raises_after_iff (s d : Bool) : wait_for_start_raises_after s d = true ↔ (s = false ∨ d = true) := by
+  simp [wait_for_start_raises_after]
+
+/-- sync `close()` sends the goodbyes from every thread that is not the instance's own loop — whether or not that
+thread runs some other event loop (the model's `closeCall true` is this branch) -/
+theorem sync_close_unregisters_off_loop : sync_close_skips_goodbyes false = false := by simp [sync_close_skips_goodbyes]
+
 end Zc.GenFacts.Shutdown
